@@ -14,7 +14,8 @@ EXPLANATION = ('Each solver is executed on symbolic reals; the three conservatio
                'residual is non-zero, separately on every feasible path (= every smooth region).')
 BOUNDS = ['geometry enumerated; one evaluation point (the PDE is pointwise); adiabatic index symbolic for closed forms']
 OUTSIDE = ['accuracy of ODE integration / root finding inside Sedov, Guderley (only the Python-level right-hand sides '
-           'and dimensionalisation are encoded)', 'behaviour exactly on a discontinuity']
+           'and dimensionalisation are encoded)', 'behaviour exactly on a discontinuity',
+           "general-EOS fans between table nodes (linear interpolation); general-EOS Riemann driver (RiemannGenEOS.driver): run as coded with scipy.integrate.ode replaced by its contract (ideal-gas flag: the closed-form integral curve, proved to satisfy the real right-hand side drdp_dudp by the `geos.ode_contract' obligations), bisect by f(x*)=0, tables of 2 (rarefaction) / 4 (shock) nodes, empty internal grid; wave ordering and monotone fan knots (np.interp's precondition) are assumed; one obligation per wave pattern and per pair of table intervals containing p*; p* within one table step of an initial pressure (star-state lookup clamps to the last node) and the JWL flag are outside"]
 ASSUMPTIONS = ['Coggeshall energy equation: conservation form with e = Gamma T/(gamma-1) and the heat flux '
                'F = -(4 a c lambda0/3) rho^alpha T^(beta+3) dT/dr with a, c as hard-wired in the cog modules; solvers that '
                'declare alpha/beta but no lambda0 must have a divergence-free flux']
@@ -315,6 +316,11 @@ def obligations(tier):
             o = C04.Fan(side, g)
             o.id = o.id.replace('C04.fan', 'C01.riemann.fan')
             obs.append(o)
+    # general-EOS Riemann solver: its fans are tables.  The ODE contract (closed form == integral curve of the real
+    # right-hand side drdp_dudp: dr/dp = 1/c^2, du/dp = -/+ 1/(rho c)) plus "every table node sits on its own characteristic
+    # x = xd0 + t (u -/+ c) with the node's state" is the self-similar form of the Euler equations at the nodes
+    from . import geos
+    obs += geos.obligations('C01', tier, patterns=('RCR', 'RCS', 'SCR'))
     obs.append(EHEPPDE())
     for n in (2, 3):
         for gam in ([Fraction(7, 5)] if tier == 'quick' else H.G_FULL):
